@@ -163,9 +163,12 @@ def instances(tier="quick"):
 
 def generate(tier="quick", path=None):
     path = path or os.path.join(LEAN_DIR, "PyXABProofs", "Generated", "Geometry.lean")
+    ipath = os.path.join(os.path.dirname(path), "Indices.lean")
     insts = instances(tier)
     body = [HEADER]
+    ibody = [HEADER.replace("namespace PyXAB.Generated", "namespace PyXAB.GeneratedIdx")]
     names = []
+    inames = []
     problems = []
     for (kind, K, d, dim) in insts:
         try:
@@ -195,19 +198,23 @@ theorem boxes_{nm} {{α : Type}} [Field α] [LinearOrder α] [IsStrictOrderedRin
         names.append(f"cpoints_{nm}")
         idx = "[" + ", ".join(t["indices"]) + "]"
         n = len(t["kids"])
-        body.append(f"""theorem indices_{nm} (i : Nat) (hi : 1 ≤ i) :
+        ibody.append(f"""/-- traced index labels of the children of `{kind}` (K={K}), {d}-D box -/
+theorem indices_{nm} (i : Nat) (hi : 1 ≤ i) :
     (List.range {n}).map (childIndex {lean_kind(kind, K)} {d} i) = {idx} := by
   geo_index
 """)
-        names.append(f"indices_{nm}")
+        inames.append(f"indices_{nm}")
     body.append("\nend PyXAB.Generated\n")
-    text = "\n".join(body)
-    old = open(path).read() if os.path.exists(path) else None
-    if old != text:
-        os.makedirs(os.path.dirname(path), exist_ok=True)
-        with open(path, "w") as f:
-            f.write(text)
-    return {"instances": len(insts), "theorems": names, "problems": problems, "changed": old != text, "path": path}
+    ibody.append("\nend PyXAB.GeneratedIdx\n")
+    changed = False
+    for pth, txt in ((path, "\n".join(body)), (ipath, "\n".join(ibody))):
+        old = open(pth).read() if os.path.exists(pth) else None
+        if old != txt:
+            os.makedirs(os.path.dirname(pth), exist_ok=True)
+            with open(pth, "w") as f:
+                f.write(txt)
+            changed = True
+    return {"instances": len(insts), "theorems": names, "index_theorems": inames, "problems": problems, "changed": changed, "path": path}
 
 
 if __name__ == "__main__":
